@@ -125,6 +125,11 @@ ZONE_DAYS = {
 ZONE_QUIET = {"America/Chicago": "2019-03-12", "Europe/London": "2019-04-02"}
 
 
+# twin zone: the same UTC offset as the zone's standard time all year round
+TWINS = {"Europe/London": "UTC", "America/Chicago": "America/Regina"}
+TWIN_WINDOW = {"Europe/London": ("2019-02-20", "2019-11-20"), "America/Chicago": ("2019-02-20", "2019-11-20")}
+
+
 def split_variant(variant):
     v, _, zone = variant.partition("@")
     return v, (zone or TZ)
@@ -152,7 +157,15 @@ def _subdaily(cin, variant):
     em = _st["em"]
     variant, zone = split_variant(variant)
     date = _target_date(cin["dayMin"], zone)
-    idx, on = _day_index(date, cin["interval"], zone)
+    variant, _, twin = variant.partition("+")
+    if twin:
+        # a long window that starts and ends in standard time; the same instants are first processed as a meter of the twin zone
+        # (same UTC offsets at both ends of the window, no clock change in between), in the same process, just before
+        lo, hi = TWIN_WINDOW[zone]
+        idx = pd.date_range(pd.Timestamp(lo, tz=zone), pd.Timestamp(hi, tz=zone), freq="%dmin" % cin["interval"], inclusive="left")
+        on = idx.date == pd.Timestamp(date).date()
+    else:
+        idx, on = _day_index(date, cin["interval"], zone)
     obs = np.full(len(idx), 5.0)
     pos = np.where(on)[0]
     if len(pos) != cin["total"]:
@@ -167,6 +180,8 @@ def _subdaily(cin, variant):
     frame = pd.DataFrame({"temperature": 55.0 + (hr % 12), "observed": obs}, index=idx)[keep]
     out = {"res": "ok", "has": False, "n": 0, "d": 1, "ok": False}
     try:
+        if twin:
+            em.DailyBaselineData(frame.tz_convert(TWINS[zone]), is_electricity_data=False)
         obj = em.DailyBaselineData(frame, is_electricity_data=False)
         df = obj.df
     except Exception as ex:
